@@ -107,7 +107,9 @@ func fsmPairedExplore(c *Ctx, n, t int, maxStates int) (states, pairs int) {
 	}
 	defer w.Close()
 	round := fmt.Sprintf("pairedround-%d-%d-aaaaaaaaaaaaaaaaaaaaaaaaaaaaaaaaaaaa", n, t)
-	t0 := now()
+	// time stamps as an operator's machine outside UTC writes them (zone offset in the JSON, a zone object
+	// and a monotonic reading in memory): none of that survives a dump, and none of it may matter
+	t0 := time.Now().In(time.FixedZone("operator", 2*3600+1800))
 	a := &alphabetCtx{W: w, Round: round, T0: t0, N: n}
 	evs := a.dkgAlphabet(fakeKey("master", 0), fakeKey("master", 1), []byte(`{"commitments":["AA=="]}`))
 	im := initMsg(w, round, n, t, t0, 0)
